@@ -215,3 +215,26 @@ def c08(run):
 @prop("C10")
 def c10(run):
     return R.check_c10(run)
+
+
+import poolfam as P  # noqa: E402
+
+
+@prop("C17")
+def c17(run):
+    return P.check_c17(run)
+
+
+@prop("C06")
+def c06(run):
+    return P.check_c06(run)
+
+
+@prop("C16")
+def c16(run):
+    return P.check_c16(run)
+
+
+@prop("C07")
+def c07(run):
+    return P.check_c07(run)
